@@ -10,7 +10,7 @@ git -C /repo archive HEAD include | tar -x -C $wt/repo
 ( cd $wt/repo && git init -q . && git apply $d/patch.diff ) || { echo "$id: patch does not apply"; rm -rf $wt; exit 3; }
 out=""
 for p in "$@"; do
-  VERIF_REPO=$wt/repo VERIF_WORK=$wt/work VERIF_EVIDENCE_DIR=$wt/ev VERIF_JOBS=${VERIF_JOBS:-4} /verif/bin/check $p --tier quick > /tmp/seedrun_${id}_$p.log 2>&1; rc=$?
+  VERIF_REPO=$wt/repo VERIF_WORK=$wt/work VERIF_EVIDENCE_DIR=$wt/ev VERIF_JOBS=${VERIF_JOBS:-4} ${VERIF_HOME:-/verif}/bin/check $p --tier quick > /tmp/seedrun_${id}_$p.log 2>&1; rc=$?
   v=$(grep -c "^VIOLATION" /tmp/seedrun_${id}_$p.log)
   f=$(grep "^VIOLATION" /tmp/seedrun_${id}_$p.log | sed -e 's/.*obligation=\([^ ]*\) failed=\([^ ]*\).*/\1:\2/' | head -3 | tr '\n' ' ')
   e=$(grep "^ERROR" /tmp/seedrun_${id}_$p.log | head -2 | cut -c1-200 | tr '\n' ' ')
